@@ -49,9 +49,14 @@ var c08truth = map[string]map[string]string{
 	"C": {"k1": "c1", "k2": "c2", "x": "b1"},
 	"E": {"k1": "e1", "k2": "c2", "x": "b1"},
 	"D": {"k1": "c1", "k2": "c2", "x": "b1", "k4": "d4"},
+	// out-of-order shape: B2 (child of A, writes k1,k5) is committed AFTER its child D2 (no writes)
+	"B2": {"k1": "b21", "k5": "b25", "k3": "a3"},
+	"D2": {"k1": "b21", "k5": "b25", "k3": "a3"},
+	// second committer: F, child of B, writes k1, k2 and the brand-new key k6
+	"F": {"k1": "f1", "k2": "f2", "k6": "f6", "k3": "a3", "x": "b1"},
 }
 
-var c08keys = []string{"k1", "k2", "k3", "k4", "x"}
+var c08keys = []string{"k1", "k2", "k3", "k4", "k5", "k6", "x"}
 
 type c08env struct {
 	sc          *statecache.StateCache
@@ -64,6 +69,8 @@ type c08env struct {
 	reads       []c08read
 	committed   map[string]*int32
 	useE        bool
+	bcB2, bcF   *statecache.BlockCache
+	extra       []string // blocks (beyond A, B, C) whose commits complete during the scenario: swept at the end
 }
 
 func c08commitBlock(sc *statecache.StateCache, hash, prev string, round int64, set map[string]string, remove []string) {
@@ -80,7 +87,7 @@ func c08commitBlock(sc *statecache.StateCache, hash, prev string, round int64, s
 
 func newC08env(useE bool) *c08env {
 	e := &c08env{sc: statecache.NewStateCache(), committed: map[string]*int32{}, useE: useE}
-	for _, b := range []string{"A", "B", "C", "E"} {
+	for _, b := range []string{"A", "B", "C", "E", "B2", "D2", "F"} {
 		e.committed[b] = new(int32)
 	}
 	c08commitBlock(e.sc, "A", "", 1, map[string]string{"k1": "a1", "k3": "a3"}, nil)
@@ -100,6 +107,20 @@ func newC08env(useE bool) *c08env {
 	e.bcE, tcE = statecache.NewBlockTxnCaches(e.sc, statecache.Block{Round: 4, Hash: "E", PrevHash: "C"})
 	tcE.Set("k1", statecache.String("e1"))
 	tcE.Commit()
+	// D2 is committed before its parent B2 (out of order); B2 is prepared for a scenario to commit
+	c08commitBlock(e.sc, "D2", "B2", 3, nil, nil)
+	*e.committed["D2"] = 1
+	var tcB2 *statecache.TransactionCache
+	e.bcB2, tcB2 = statecache.NewBlockTxnCaches(e.sc, statecache.Block{Round: 2, Hash: "B2", PrevHash: "A"})
+	tcB2.Set("k1", statecache.String("b21"))
+	tcB2.Set("k5", statecache.String("b25"))
+	tcB2.Commit()
+	var tcF *statecache.TransactionCache
+	e.bcF, tcF = statecache.NewBlockTxnCaches(e.sc, statecache.Block{Round: 3, Hash: "F", PrevHash: "B"})
+	tcF.Set("k1", statecache.String("f1"))
+	tcF.Set("k2", statecache.String("f2"))
+	tcF.Set("k6", statecache.String("f6"))
+	tcF.Commit()
 	return e
 }
 
@@ -113,14 +134,32 @@ func (e *c08env) rec(who, key, ctx string, v statecache.Value, ok bool, after bo
 	e.mu.Unlock()
 }
 
+// gate names the block whose commit completes the chain of a lookup context
+func c08gate(blk string) string {
+	if blk == "D2" {
+		return "B2"
+	}
+	return blk
+}
+
+func (e *c08env) commitB2() {
+	e.bcB2.Commit()
+	atomic.StoreInt32(e.committed["B2"], 1)
+}
+
+func (e *c08env) commitF() {
+	e.bcF.Commit()
+	atomic.StoreInt32(e.committed["F"], 1)
+}
+
 func (e *c08env) readState(who, key, blk string) {
-	after := atomic.LoadInt32(e.committed[blk]) == 1
+	after := atomic.LoadInt32(e.committed[c08gate(blk)]) == 1
 	v, ok := e.sc.Get(key, blk)
 	e.rec(who, key, blk, v, ok, after)
 }
 
 func (e *c08env) readQuery(who, key, blk string) {
-	after := atomic.LoadInt32(e.committed[blk]) == 1
+	after := atomic.LoadInt32(e.committed[c08gate(blk)]) == 1
 	v, ok := statecache.NewQueryBlockCache(e.sc, blk).Get(key)
 	e.rec(who, key, blk, v, ok, after)
 }
@@ -177,16 +216,18 @@ func (e *c08env) judge() string {
 			return fmt.Sprintf("%s: lookup %s@%s missed although its whole chain was committed before any concurrency (value %q)", r.who, r.key, r.ctx, want)
 		}
 		if r.afterCommit {
-			return fmt.Sprintf("%s: lookup %s@%s missed although it started after the commit of %s had returned (value %q)", r.who, r.key, r.ctx, r.ctx, want)
+			return fmt.Sprintf("%s: lookup %s@%s missed although it started after the commit of %s had returned (value %q)", r.who, r.key, r.ctx, c08gate(r.ctx), want)
 		}
 	}
 	return ""
 }
 
 func (e *c08env) sweep() string {
-	blocks := []string{"A", "B", "C"}
-	if e.useE {
-		blocks = append(blocks, "E")
+	var blocks []string
+	for _, b := range []string{"A", "B", "C", "E", "B2", "D2", "F"} {
+		if atomic.LoadInt32(e.committed[b]) == 1 && (b != "D2" || atomic.LoadInt32(e.committed["B2"]) == 1) {
+			blocks = append(blocks, b)
+		}
 	}
 	for _, b := range blocks {
 		for _, k := range c08keys {
@@ -230,6 +271,22 @@ var c08scenarios = []c08scenario{
 	}},
 	{"commitC;commitE | k1@E | k1@C,k2@E", true, func(e *c08env) ([]string, []func()) {
 		return []string{"commit", "r1", "r2"}, []func(){e.commitC, func() { e.readState("r1", "k1", "E") }, func() { e.readState("r2", "k1", "C"); e.readState("r2", "k2", "E") }}
+	}},
+	{"out of order: D2 committed before its parent; commitB2 | k1@D2 | k1@D2,k1@B2", false, func(e *c08env) ([]string, []func()) {
+		e.extra = []string{"B2", "D2"}
+		return []string{"commit", "r1", "r2"}, []func(){e.commitB2, func() { e.readState("r1", "k1", "D2") }, func() { e.readQuery("r2", "k1", "D2"); e.readState("r2", "k1", "B2") }}
+	}},
+	{"out of order: commitB2 | k5@D2,k1@D2 | k3@D2", false, func(e *c08env) ([]string, []func()) {
+		e.extra = []string{"B2", "D2"}
+		return []string{"commit", "r1", "r2"}, []func(){e.commitB2, func() { e.readState("r1", "k5", "D2"); e.readState("r1", "k1", "D2") }, func() { e.readState("r2", "k3", "D2") }}
+	}},
+	{"two committers: commitC | commitF | k2@C,k6@F", false, func(e *c08env) ([]string, []func()) {
+		e.extra = []string{"F"}
+		return []string{"commit", "commitF", "r1"}, []func(){e.commitC, e.commitF, func() { e.readState("r1", "k2", "C"); e.readState("r1", "k6", "F") }}
+	}},
+	{"two committers: commitF | commitC | k2@F | k2@C", false, func(e *c08env) ([]string, []func()) {
+		e.extra = []string{"F"}
+		return []string{"commit", "commitC", "r1", "r2"}, []func(){e.commitF, e.commitC, func() { e.readState("r1", "k2", "F") }, func() { e.readState("r2", "k2", "C") }}
 	}},
 	{"commitC | k1@C | k2@C | D.block k3", false, func(e *c08env) ([]string, []func()) {
 		return []string{"commit", "r1", "r2", "r3"}, []func(){e.commitC, func() { e.readState("r1", "k1", "C") }, func() { e.readState("r2", "k2", "C") }, func() { e.readD("r3", "k3", false) }}
@@ -427,7 +484,12 @@ func c08free(c *fw.Ctx) {
 	}
 	blocks := map[string]*blk{}
 	g := &blk{hash: "G", set: map[string]string{}}
-	for _, k := range keys {
+	fresh := map[string]bool{}
+	for i, k := range keys {
+		if i >= nkeys-2 && nkeys > 3 { // the last two keys are brand-new: first written by the forks' first blocks, concurrently
+			fresh[k] = true
+			continue
+		}
 		g.set[k] = "G/" + k
 	}
 	blocks["G"] = g
@@ -439,6 +501,10 @@ func c08free(c *fw.Ctx) {
 		for d := 1; d <= depth; d++ {
 			b := &blk{hash: fmt.Sprintf("f%d.%d", f, d), prev: prev, set: map[string]string{}}
 			for _, k := range keys {
+				if fresh[k] && d == 1 {
+					b.set[k] = b.hash + "/" + k
+					continue
+				}
 				switch r.Intn(5) {
 				case 0, 1:
 					b.set[k] = b.hash + "/" + k
@@ -466,6 +532,37 @@ func c08free(c *fw.Ctx) {
 			}
 		}
 		return "", false
+	}
+	// chainDone: every block from h up to (and including) the block that decides key has finished its commit
+	chainDone := func(key, h string) bool {
+		for cur := h; cur != ""; cur = blocks[cur].prev {
+			b := blocks[cur]
+			if atomic.LoadInt32(&b.done) != 1 {
+				return false
+			}
+			if _, ok := b.set[key]; ok {
+				return true
+			}
+			for _, k := range b.rm {
+				if k == key {
+					return true
+				}
+			}
+		}
+		return true
+	}
+	// a third of the forks commit their blocks out of order (children before parents)
+	order := make([][]int, nforks)
+	outOfOrder := 0
+	for f := range order {
+		order[f] = r.Perm(depth)
+		if r.Intn(3) != 0 {
+			for i := range order[f] {
+				order[f][i] = i
+			}
+		} else {
+			outOfOrder++
+		}
 	}
 	// schedule perturbation through the hook
 	var pert uint32
@@ -496,7 +593,8 @@ func c08free(c *fw.Ctx) {
 		go func(f int) {
 			defer wg.Done()
 			<-start
-			for _, b := range forks[f] {
+			for _, bi := range order[f] {
+				b := forks[f][bi]
 				bc, tc := statecache.NewBlockTxnCaches(sc, statecache.Block{Hash: b.hash, PrevHash: b.prev})
 				for k, v := range b.set {
 					tc.Set(k, statecache.String(v))
@@ -531,7 +629,7 @@ func c08free(c *fw.Ctx) {
 			for n := 0; n < 40+rr.Intn(60); n++ {
 				b := blocks[all[rr.Intn(len(all))]]
 				k := keys[rr.Intn(len(keys))]
-				after := atomic.LoadInt32(&b.done) == 1
+				after := chainDone(k, b.hash)
 				if atomic.LoadInt32(&inCommit) > 0 {
 					atomic.AddInt64(&overlapping, 1)
 				}
@@ -595,6 +693,7 @@ func c08free(c *fw.Ctx) {
 		}
 	}
 	c.Count("free_runs", 1)
+	c.Count("free_forks_committed_out_of_order", int64(outOfOrder))
 	c.Count("free_lookups_overlapping_a_commit", overlapping)
 	c.Distinct("nontrivial", fw.Hash64("free", c.Idx, len(reads), overlapping))
 	if c.Idx%10 == 0 {
@@ -617,6 +716,9 @@ func runC08(c *fw.Ctx) {
 	case idx < nscen:
 		sn := c08scenarios[idx]
 		c.Describe(map[string]any{"mode": "A: enumeration with preemption bound", "scenario": sn.name, "bound": dfsBound, "cap": dfsCap})
+		if strings.HasPrefix(sn.name, "two committers") && c.Quick() {
+			dfsBound = 2 // every preemption of the second committer costs a lock-wait detection; thorough keeps the full bound
+		}
 		c08dfs(c, sn, dfsBound, dfsCap)
 		if idx == 0 {
 			tr, _, names, _ := c08run(sn, planChooser([]c08preempt{{3, 2}, {9, 1}}))
@@ -639,7 +741,7 @@ func init() {
 		ID:    "C08",
 		Level: "exploration",
 		Race:  true,
-		Rule: "Mode A (controlled schedules through the verif yield hook, one yield before every shared-map access of StateCache.Get/commit): 8 small scenarios (ancestors A<-B committed; C, child of B, writing k1,k2 and removing k3, being committed by one participant, in one scenario followed by its child E; " +
+		Rule: "Mode A (controlled schedules through the verif yield hook, one yield before every shared-map access of StateCache.Get/commit): 12 small scenarios (ancestors A<-B committed; C, child of B, writing k1,k2 and removing k3, being committed by one participant, in one scenario followed by its child E; two scenarios commit a parent AFTER its already committed child; two scenarios run a second committer for a sibling block writing a brand-new key (the scheduler sets a participant aside while it is blocked on a real lock); " +
 			"2-3 reader participants issuing 1-2 lookups at A, B, C, E and through the block/transaction cache of an open child D). Schedules: breadth-first enumeration of all schedules with at most 3 (quick) / 4 (thorough) preemptions up to a cap, uniform random schedules, PCT-style priority schedules. " +
 			"Oracle: every hit equals the value the block tree determines; lookups at contexts committed before the run, of own uncommitted entries, and lookups started after Commit returned must hit; a quiescent sweep re-reads every (key, block). " +
 			"Mode B: 2-6 committers each extending its own fork, 4-10 readers, GOMAXPROCS in {1,2,4,16}, the hook injects Gosched/µs sleeps; same oracle on the recorded results plus post-commit visibility; the whole check runs in the -race binary and every distinct race report is a violation. " +
